@@ -616,8 +616,12 @@ class Extract:
                     # The target becomes opaque.  Only the result of an inverse function keeps its own name as atom
                     # (rules reason about `θ = arctan2(..)` through the arguments); anything else gets an atom no
                     # rule can name, so that an unmodelled formula can never satisfy an obligation by accident.
-                    inverse = isinstance(st.value, ast.Call) and ast.unparse(st.value.func).split(".")[-1] in (
-                        "arctan2", "arcsin", "arccos", "arctan", "arctanh", "arccosh", "arcsinh")
+                    # an *opaque source* (attribute, element, slice, method call, inverse function) keeps its own name;
+                    # a formula the algebra could not follow (arithmetic, a direct mathematical function) does not
+                    fname = ast.unparse(st.value.func).split(".")[-1] if isinstance(st.value, ast.Call) else ""
+                    formula = isinstance(st.value, (ast.BinOp, ast.UnaryOp)) or fname in (
+                        "sqrt", "cos", "sin", "tan", "cosh", "sinh", "tanh", "exp", "log", "abs", "fabs", "cross", "dot", "norm", "array")
+                    inverse = not formula
                     for t in st.targets:
                         for nm in ast.walk(t):
                             if isinstance(nm, ast.Name):
